@@ -483,7 +483,10 @@ type Contract struct {
 	Loops    map[int]*LoopSpec
 	Havoc    []string // "user", ...
 	Assigns  []Expr
+	AssignTags []string
+	HasAssigns bool
 	MayPanic bool
+	NoReturn bool
 	Pure     bool
 	Trusted  bool   // contract assumed, body not verified (stated in evidence)
 	Abstract bool   // interface method / external: no body
@@ -515,7 +518,7 @@ type SpecFile struct {
 var clauseKeywords = map[string]bool{
 	"func": true, "requires": true, "ensures": true, "ghost": true, "on": true, "effect": true,
 	"loop": true, "assigns": true, "havoc": true, "may-panic": true, "pure": true, "spec": true,
-	"abstract": true, "guarded": true, "freevars": true, "trusted": true, "axiom": true,
+	"abstract": true, "guarded": true, "no-return": true, "freevars": true, "trusted": true, "axiom": true,
 }
 
 // parseTags parses a leading "[C01,C02]" and returns the rest.
@@ -833,7 +836,13 @@ func parseSpecFile(path string) (*SpecFile, error) {
 				cur.Havoc = append(cur.Havoc, strings.Fields(r.text)...)
 			case "assigns":
 				rule = nil
-				for _, a := range strings.Split(r.text, ",") {
+				cur.HasAssigns = true
+				atags, atext := parseTags(r.text)
+				cur.AssignTags = append(cur.AssignTags, atags...)
+				for _, t := range atags {
+					cur.Props[t] = true
+				}
+				for _, a := range strings.Split(atext, ",") {
 					a = strings.TrimSpace(a)
 					if a == "" || a == "nothing" {
 						continue
@@ -846,6 +855,8 @@ func parseSpecFile(path string) (*SpecFile, error) {
 				}
 			case "may-panic":
 				cur.MayPanic = true
+			case "no-return":
+				cur.NoReturn = true
 			case "pure":
 				cur.Pure = true
 			case "trusted":
